@@ -720,6 +720,8 @@ public:
             m_elem[i].idx = sv.index(i);
          }
 
+         set_size(sv.size());
+
          assert(isConsistent());
       }
 
@@ -750,6 +752,8 @@ public:
                m_elem[i].idx = sv.index(i);
             }
          }
+
+         set_size(sv.size());
 
          assert(isConsistent());
       }
